@@ -3917,7 +3917,10 @@ class Client:
                 return self.reconnect()
 
         if result == 0:
-            self._state = _ConnectionState.MQTT_CS_CONNECTED
+            # disconnect() may have been called while the CONNACK was on its way:
+            # that decision stands, the DISCONNECT is still queued.
+            if self._state != _ConnectionState.MQTT_CS_DISCONNECTING:
+                self._state = _ConnectionState.MQTT_CS_CONNECTED
             self._reconnect_delay = None
 
         if self._protocol == MQTTv5:
